@@ -1179,3 +1179,25 @@ func reachesUnder(starts []Point, leaf func(ssa.Value) string, known map[string]
 	}
 	return nil
 }
+
+// maybeNilResult: the error result of ret can be nil: it is the nil constant, or a value (a call's
+// result handed through) that is not known to be non-nil on this path. Error constants and values
+// returned on the non-nil edge of their own test cannot be nil.
+func maybeNilResult(ret *ssa.Return, idx int) bool {
+	v := unspill(ret.Results[idx])
+	switch errKind(v) {
+	case "nil":
+		return true
+	case "global":
+		return false
+	}
+	if _, isMk := v.(*ssa.MakeInterface); isMk {
+		return false
+	}
+	_, nonNil, _ := nilEdges(v)
+	if len(nonNil) > 0 && edgesDominate(nonNil, ret) {
+		return false
+	}
+	return true
+}
+
